@@ -47,6 +47,7 @@ def unwindset(tb):
         "__CPROVER_file_local_assembler_c_assemble_instr.0": 17,
         "nop_padding.0": 13, "nop_padding.1": 4,
         "assemble_all.0": 6,
+        "harness.0": 80, "harness.1": 80, "harness.2": 80, "harness.3": 80, "harness.4": 80, "harness.5": 80,
     }
 
 
